@@ -40,17 +40,6 @@ DISCHARGED = {
 # against the real parser in a scratch worktree (counting allocator); one named site each, with the bound that the rule's
 # idiom table does not recognise.
 DISCHARGED_R2 = {
-    "C02.R2|cascette_formats::encoding::file::<EncodingFile>::parse_ckey_pages|Vec::with_capacity|field EncodingHeader.ckey_page_count":
-        "only reached from EncodingFile::parse after its `for _ in 0..ckey_page_count` index loop has read 32 bytes per page with `?`: "
-        "the count is bounded by input_len/32 when this allocation runs (an implicit length bound in the caller)",
-    "C02.R2|cascette_formats::encoding::file::<EncodingFile>::parse_ekey_pages|Vec::with_capacity|field EncodingHeader.ekey_page_count":
-        "same as parse_ckey_pages: the ekey index loop in the caller has already consumed 32 bytes per page",
-    "C02.R2|cascette_formats::archive::index::<ChunkedArchiveIndex>::open|Vec::with_capacity|value read from input by from_le_bytes":
-        "dominated by `file.seek(SeekFrom::End(-(footer_size + toc_size)))?`, which fails with EINVAL unless the table of contents "
-        "(chunk_count * entry size) fits inside the file: chunk_count is bounded by the file length (measured: 28-byte file with "
-        "element_count 0xFFFFFFFF -> Err, largest request 20 bytes; 1 MiB file -> 2.67x the file size)",
-    "C02.R2|cascette_formats::archive::index::<ChunkedArchiveIndex>::open|vec-from-elem|value read from input by from_le_bytes":
-        "same seek(SeekFrom::End(-toc_size)) bound as the with_capacity three lines above",
     "C02.R2|cascette_formats::tvfs::est_table::<EstTable as BinRead>::read_options|vec-from-elem|binrw args passed by the parent parser":
         "the only parser caller (TvfsFile::parse, tvfs/mod.rs) checks `est_table_offset + est_table_size <= data.len()` before passing the "
         "size as binrw argument (46-byte header with size 0xFFFFFFFF -> Err, largest request 88 bytes); only a direct call of the public "
@@ -262,6 +251,22 @@ def guard_on(prog, b, sink, sl, taints, depth=0):
                 uneq = tt if r["op"] == "Ne" else ft
                 if sink.bb not in b.reachable([uneq], avoid={sbb}):
                     return "pinning (in)equality at %s:%d" % (b.file, s["l"])
+    # idiom (v): `seek(SeekFrom::End(-(..size..)))?` dominating the sink: a size that does not fit in the file makes the seek fail
+    for c in b.calls:
+        if c.bb != sink.bb and b.dominates(c.bb, sink.bb) and re.search(r"\bSeek>?::seek$", c.name) and len(c.args) >= 2 and op_local(c.args[1]) is not None:
+            s2 = Slice(b, [op_local(c.args[1])], transparent=ARITH)
+            is_end = any(o.get("variant") == "End" for o in s2.consts)
+            neg = any(o[0] in ("Neg", "Sub", "SubWithOverflow") for o in s2.ops)
+            if is_end and neg and (s2.locals & watch) and (mentions(s2, fields) or any(t.ident[0] == "local" and t.ident[2] in s2.locals for t in taints)):
+                from .c05 import enum_switches_through
+                for (ebb, m, other, via) in enum_switches_through(b, c.dest[0]):
+                    if 1 in m and sink.bb not in b.reachable([m[1]]):
+                        return "seek(SeekFrom::End(-size))? at %s (a size that does not fit in the file fails the seek)" % c.loc()
+    # idiom (vi): a dominating `for _ in 0..N` loop over the same value whose body reads from the input with `?`: N is bounded
+    # by what the input holds when the loop has run to completion
+    g = bounding_loop(b, sink.bb, watch, fields, taints)
+    if g:
+        return g
     # callee validators that ran before the sink on the same struct / value
     if depth < 2:
         for c in b.calls:
@@ -281,6 +286,36 @@ def guard_on(prog, b, sink, sl, taints, depth=0):
             g = callee_bounds(prog, tb, fields, depth + 1)
             if g:
                 return "bound inside %s (%s)" % (tb.id.split("::")[-1], g)
+    return None
+
+
+READ_CALL = re.compile(r"\bRead>?::read_exact$|\bBinRead>?::read\w*$|BinReaderExt>?::read_\w+$|\bRead>?::read$")
+
+
+def bounding_loop(b, before_bb, watch, fields, taints):
+    """a `0..N` loop (N derived from the tainted value) that has run to completion before `before_bb` and reads input with `?`
+    in every iteration"""
+    for nx in b.calls:
+        if not re.search(r"\bIterator>?::next$", nx.orig_name or nx.name) or "Range<" not in nx.full:
+            continue
+        # loop exit (None edge) dominates the sink
+        exit_e = None
+        for sb in b.succ[nx.bb]:
+            for (v, tg) in b.switch_edges(sb):
+                if v == 0:
+                    exit_e = tg
+        if exit_e is None or not (before_bb in b.reachable([exit_e]) and b.dominates(nx.bb, before_bb)):
+            continue
+        if before_bb in b.reachable(b.succ[nx.bb], avoid={exit_e}) and before_bb != exit_e:
+            # the sink is inside the loop body, not after it
+            continue
+        rs = Slice(b, [op_local(nx.args[0])], transparent=re.compile(ARITH.pattern + r"|\bIntoIterator>?::into_iter$"))
+        if not ((rs.locals & watch) and (mentions(rs, fields) or any(t.ident[0] in ("local", "args") and t.ident[-1] in rs.locals for t in taints))):
+            continue
+        body_blocks = b.reachable(b.succ[nx.bb], avoid={exit_e})
+        reads = [c for c in b.calls if c.bb in body_blocks and (READ_CALL.search(c.name) or READ_CALL.search(c.orig_name))]
+        if reads:
+            return "bounding loop at %s reads input %d time(s) per iteration with `?`" % (nx.loc(), len(reads))
     return None
 
 
@@ -413,6 +448,14 @@ def r2_alloc(ctx, ents, cl):
             if wide and g:
                 ctx.ok(rule, [bid, what.split(" ")[0], c.bb], "bounded: %s" % g, c.loc(), sample={"sink": what, "at": c.loc(), "source": wide[0].what, "bound": g})
                 continue
+            if wide and not b.root:
+                # bound established by every caller before the call (bounding loop on the same struct field)
+                cs = [(prog.bodies[s_id], cc) for (s_id, how, cc) in prog.callers.get(b.id, []) if cc is not None and s_id in prog.bodies]
+                fields_w = {(t.ident[1], t.ident[2]) for t in wide if t.ident[0] == "field"}
+                if cs and fields_w and all(caller_bounds(cb, cc, fields_w) for (cb, cc) in cs):
+                    g = caller_bounds(cs[0][0], cs[0][1], fields_w)
+                    ctx.ok(rule, [bid, sink_tag(what), c.bb], "bounded in the caller: %s" % g, c.loc(), sample={"sink": what, "at": c.loc(), "bound": g})
+                    continue
             if wide:
                 k0 = ctx._stable("|".join([rule, bid, sink_tag(what), wide[0].what.split(" (")[0]]))
                 if k0 in DISCHARGED_R2:
@@ -435,6 +478,20 @@ def r2_alloc(ctx, ents, cl):
                     (bid, what, c.loc(), b.local_name(p), cb.id.split("::")[-1], cts[0].what), c.loc(), {"caller": cb.id, "call": cc.loc()})
     ctx.floor(rule, n_sinks, 80, "allocation sinks in the parser closure")
     ctx.ok(rule, ["sinks"], "sinks scanned", None, sample={"allocation_sinks_in_closure": n_sinks, "with_wide_input_derived_size": n_tainted})
+
+
+def caller_bounds(cb, cc, fields):
+    """in the caller, a completed bounding loop over one of `fields` dominates the call"""
+    watch = set()
+    for i, j, st in cb.stmts():
+        r = st["r"]
+        for o in r.get("o", []):
+            if o["k"] in ("cp", "mv") and field_of(o["p"]) in fields:
+                watch.add(st["p"][0])
+                watch.add(o["p"][0])
+    if not watch:
+        return None
+    return bounding_loop(cb, cc.bb, watch, fields, [])
 
 
 def sink_tag(what):
